@@ -1,3 +1,95 @@
 import Holpy.Common.Sexp
-/- stub: replaced when the C17 model is built -/
-def main : IO Unit := Holpy.lineLoop (fun _ => "bad-op")
+import Holpy.C17.Model
+/-
+Line protocol for the C17 model: one whole operation sequence per line, run from the empty
+structure; the answer lists the canonical output of every operation.
+
+  (OP ...)  with OP =
+    (add c) | (mc a b) | (mf a1 a2 a)   -> (part (c m) ...)   every entered constant c (ascending)
+                                           with the least constant m of its class (= all `test`s)
+    (test a b)                          -> T | F | (err key)
+    (explain a b)                       -> (res ((a b) LABEL ...) ...) sorted by key | (err KIND)
+  LABEL = (c a b) | (f a1 a2 a b1 b2 b)
+-/
+open Holpy Holpy.C17
+
+namespace Holpy.C17.Driver
+
+def insertSorted (x : Nat) : List Nat → List Nat
+  | [] => [x]
+  | y :: r => if x ≤ y then x :: y :: r else y :: insertSorted x r
+
+def sortNats (l : List Nat) : List Nat := l.foldr insertSorted []
+
+def partOf (s : State) : Sexp :=
+  let cs := sortNats (s.rep.map (·.1))
+  .list (.atom "part" :: cs.map fun c =>
+    let r := repOf s c
+    let m := (cs.filter fun d => repOf s d == r).headD c
+    .list [Sexp.ofNat c, Sexp.ofNat m])
+
+def errTo : Err → Sexp
+  | .key => .list [.atom "err", .atom "key"]
+  | .assert => .list [.atom "err", .atom "assert"]
+  | .fuel => .list [.atom "err", .atom "fuel"]
+
+def labelTo : Label → Sexp
+  | .const a b => .list [.atom "c", Sexp.ofNat a, Sexp.ofNat b]
+  | .comb e1 e2 => .list ([.atom "f"] ++ [e1.a1, e1.a2, e1.a, e2.a1, e2.a2, e2.a].map Sexp.ofNat)
+
+def keyLe (x y : (Cst × Cst) × List Label) : Bool :=
+  x.1.1 < y.1.1 || (x.1.1 == y.1.1 && x.1.2 ≤ y.1.2)
+
+def insertRes (x : (Cst × Cst) × List Label) : Res → Res
+  | [] => [x]
+  | y :: r => if keyLe x y then x :: y :: r else y :: insertRes x r
+
+def resTo (r : Res) : Sexp :=
+  .list (.atom "res" :: (r.foldr insertRes []).map fun e =>
+    .list (.list [Sexp.ofNat e.1.1, Sexp.ofNat e.1.2] :: e.2.map labelTo))
+
+def runOps : State → List Sexp → List Sexp → Option (List Sexp)
+  | _, [], acc => some acc.reverse
+  | s, op :: rest, acc =>
+    match op with
+    | .list [.atom "add", c] =>
+      match c.toNat? with
+      | some c => let s' := addVar s c; runOps s' rest (partOf s' :: acc)
+      | none => none
+    | .list [.atom "mc", a, b] =>
+      match a.toNat?, b.toNat? with
+      | some a, some b => let s' := mergeConst s a b; runOps s' rest (partOf s' :: acc)
+      | _, _ => none
+    | .list [.atom "mf", a1, a2, a] =>
+      match a1.toNat?, a2.toNat?, a.toNat? with
+      | some a1, some a2, some a => let s' := mergeComb s a1 a2 a; runOps s' rest (partOf s' :: acc)
+      | _, _, _ => none
+    | .list [.atom "test", a, b] =>
+      match a.toNat?, b.toNat? with
+      | some a, some b =>
+        let o := match test s a b with
+          | .ok v => Sexp.ofBool v
+          | .error e => errTo e
+        runOps s rest (o :: acc)
+      | _, _ => none
+    | .list [.atom "explain", a, b] =>
+      match a.toNat?, b.toNat? with
+      | some a, some b =>
+        let o := match explainTop s a b with
+          | .ok r => resTo r
+          | .error e => errTo e
+        runOps s rest (o :: acc)
+      | _, _ => none
+    | _ => none
+
+def handle (line : String) : String :=
+  match Sexp.parse line with
+  | some (.list ops) =>
+    match runOps State.init ops [] with
+    | some outs => toString (Sexp.list outs)
+    | none => "bad-op"
+  | _ => "bad-op"
+
+end Holpy.C17.Driver
+
+def main : IO Unit := Holpy.lineLoop Holpy.C17.Driver.handle
